@@ -48,6 +48,13 @@ struct SocketFaults {
 
 thread_local! {
     static FAULTS: RefCell<SocketFaults> = RefCell::new(SocketFaults::default());
+    static REFUSED: RefCell<Vec<Datagram>> = RefCell::new(Vec::new());
+}
+
+/// The datagrams whose send was failed by an injected error since the last call (they were never
+/// put on the wire; the harness needs them to tell "never attempted" from "attempted and refused").
+pub fn drain_refused() -> Vec<Datagram> {
+    REFUSED.with(|r| std::mem::take(&mut *r.borrow_mut()))
 }
 
 /// Makes every `send_error_every`-th send and every `recv_error_every`-th receive call on the
@@ -272,6 +279,7 @@ impl UdpSocket {
             UdpSocket::Virtual(v) => {
                 let dst = first_addr(addr)?;
                 if injected_send_error() {
+                    REFUSED.with(|r| r.borrow_mut().push(Datagram { src: v.local, dst, data: buf.to_vec() }));
                     return Err(io::Error::new(io::ErrorKind::Other, "injected send error"));
                 }
                 NET.with(|n| {
